@@ -20,14 +20,17 @@ CLAIMED = {
     "C01": dict(
         text="Coq: L1 model of the whole schema pipeline (schema.go, type.go, schema_props.go, object/slice validators, values, formats) "
              "and L0 draft-4 function; proved: the agreement theorem L1 verdict = L0 verdict on a decidable fragment (type, enum, numeric, "
-             "string keywords, items / tuple / additionalItems, min/maxItems, properties / required / additionalProperties / min/maxProperties, "
-             "dependencies, allOf, anyOf, not, chains of references, at every depth; JSON data, with null admitted when the schema has no "
-             "allOf/anyOf/not) for every oracle, environment and numeric implementation whose order is total on the numbers involved - by "
-             "induction on the nesting depth through every keyword group - and instantiated for the Flocq binary64 instance the tie runs; the "
-             "decision procedure is proved sound and evaluated on every case (56% of the quick run lies inside); the one-shot wrapper = "
-             "validator verdict; validity of merged results; one refutation witness per recorded finding class (the unrestricted statement "
-             "is false of the faithful model). Outside the proved fragment (formats, patternProperties, oneOf, uniqueItems, recursive "
-             "definitions, null under composition) agreement is decided per case by the L0 function evaluated in exact arithmetic (partial). Tie: L1 vs Go on verdicts (and all richer observables), and "
+             "string keywords, formats next to a numeric type or a type list accepting strings, items / tuple / additionalItems, min/maxItems, "
+             "uniqueItems, properties (defaults only on members that are not required) / required / additionalProperties / min/maxProperties, "
+             "dependencies, allOf, anyOf, oneOf, not, chains of references, at every depth; JSON data, with null admitted when the schema has no "
+             "allOf/anyOf/oneOf/not and arrays admitted when formats sit next to type lists accepting arrays) for every oracle, environment and "
+             "numeric implementation whose order is total and equality symmetric on the numbers involved - by induction on the nesting depth "
+             "through every keyword group - and instantiated for the Flocq binary64 instance the tie runs; no IMPORTANT!-tagged error is ever "
+             "produced on data without 'headers' members (needed by oneOf); the decision procedure is proved sound and evaluated on every case "
+             "(about 72% of the quick run lies inside); the one-shot wrapper = validator verdict; validity of merged results; one refutation "
+             "witness per recorded finding class (the unrestricted statement is false of the faithful model). Outside the proved fragment "
+             "(formats without or against the type list, patternProperties, recursive definitions, null under composition, typed carriers) "
+             "agreement is decided per case by the L0 function evaluated in exact arithmetic (partial). Tie: L1 vs Go on verdicts (and all richer observables), and "
              "Go vs L0 in exact decimal arithmetic on every case, classified against the recorded finding classes.",
         note=TB + "Axioms: the agreement theorems are axiom-free; their binary64 instance and the refutation witnesses use Flocq and inherit the stdlib real-number axioms, classic and "
              "functional extensionality (named in DESIGN.md 7). go-openapi/spec's ExpandSchema and the format registry are oracles.",
@@ -35,11 +38,15 @@ CLAIMED = {
         ref="DESIGN.md 5/C01"),
     "C06": dict(
         text="Coq theorem over the L1 pipeline: for every schema, value (JSON, typed, json.Number), options, oracle answers and numeric "
-             "implementation, at every fuel, the only panic is the documented unresolvable-reference panic; on schemas without "
-             "references a verdict is returned as soon as the fuel exceeds the nesting depth (termination, by induction on the "
-             "depth through every keyword group); the unguarded composition cycle is proved to exhaust every fuel (recorded finding). Tie: returned/panicked compared on random, malformed, deep and "
-             "extreme cases through both entry points; the cycle witness is replayed in a child process.",
-        note=TB + "No axioms. Termination is proved for schemas without references and refuted for the composition cycle; the guarded-reference class in between is covered by the tie only; Go stack/heap exhaustion is not modelled.",
+             "implementation, at every fuel, the only panic is the documented unresolvable-reference panic; termination, recursive "
+             "definitions included: whenever a rank exists that strictly decreases along the edges that apply a schema to the same value "
+             "($ref, allOf, anyOf, oneOf, not, schema dependencies; cycles through items / properties / additional* descend into the value and "
+             "are allowed) a verdict is returned once the fuel exceeds depth(value) x (R+1) + rank, by lexicographic induction through every "
+             "keyword group; the hypothesis is decided by a procedure proved sound and evaluated on every case (99.9% of the quick run lies "
+             "inside, the rest are documented-panic cases); the unguarded composition cycle has no rank and is proved to exhaust every fuel "
+             "(recorded finding). Tie: returned/panicked compared on random, malformed, deep and extreme cases through both entry points; "
+             "inside the decided class Go must return; the cycle witness is replayed in a child process.",
+        note=TB + "No axioms. Termination is proved for every schema with a rank (decided per case) and refuted for the composition cycle: nothing lies between on the model; Go stack/heap exhaustion is not modelled.",
         tech="Rocq proof (panic-freedom by induction on fuel over all keyword groups) + outcome correspondence",
         ref="DESIGN.md 5/C06"),
     "C17": dict(
